@@ -44,6 +44,22 @@ def showRtc (uuidOk : Bool) : RtcRoute → String
   | .readerJS => "js-read"
   | .redirect l => s!"redirect {hx l}"
 
+def showReq (r : AccessReq) : String :=
+  s!"req {b01 r.publish} {hx r.name} {hx r.query} {hx r.user} {hx r.pass}"
+
+def showNameErr : Option NameErr → String
+  | none => "ok"
+  | some .empty => "bad empty"
+  | some .leadingSlash => "bad leading"
+  | some .trailingSlash => "bad trailing"
+  | some .chars => "bad chars"
+  | some .dots => "bad dots"
+
+def showPb : PbOutcome → String
+  | .badPath => "badpath" | .unauthorized => "unauthorized" | .noConf => "noconf"
+  | .badStart => "badstart" | .badEnd => "badend" | .badDuration => "badduration"
+  | .badFormat => "badformat" | .proceed => "proceed"
+
 def verdict (impl : String) : String :=
   if impl.startsWith "panic" then "FAIL pre-authentication code panicked on client-chosen input"
   else if impl == "bad-oracle" then "FAIL oracle columns of the op line are stale"
@@ -98,6 +114,58 @@ def step (_ : Unit) (op impl : String) : Unit × DrvOut :=
          | _ => out "panic")
       | _, _ => ((), { model := "bad-op" })
     | _, _, _ => ((), { model := "bad-op" })
+  | ["rtsp", _handler, p] =>
+    match Hex.decode p with
+    | some p =>
+      out (match rtspStrip p with
+        | .ok _ => "accepted"
+        | .err => "400"
+        | .panic => "panic")
+    | none => ((), { model := "bad-op" })
+  | ["srtconn", raw] =>
+    match Hex.decode raw with
+    | some raw =>
+      out (match srtConnRequest raw with
+        | .ok r => showReq r
+        | .err => "reject"
+        | .panic => "panic")
+    | none => ((), { model := "bad-op" })
+  | ["rtmp", pub, p, q, u, w] =>
+    match Hex.decode p, Hex.decode q, Hex.decode u, Hex.decode w with
+    | some p, some q, some u, some w => out (showR (rtmpConnRequest (pub == "1") p q u w) showReq)
+    | _, _, _, _ => ((), { model := "bad-op" })
+  | ["vname", n, re] =>
+    match Hex.decode n with
+    | some n => out (showR (isValidPathName n (re == "1")) showNameErr)
+    | none => ((), { model := "bad-op" })
+  | ["pbget", auth, conf, pa, _st, _du, fo, re, stOk, duOk] =>
+    match Hex.decode pa, Hex.decode fo with
+    | some pa, some fo =>
+      out (showR (playbackGet pa (re == "1") (auth == "1") (stOk == "1") (duOk == "1") (conf == "1") fo) showPb)
+    | _, _ => ((), { model := "bad-op" })
+  | ["pblist", auth, conf, pa, st, en, re, stOk, enOk] =>
+    match Hex.decode pa, Hex.decode st, Hex.decode en with
+    | some pa, some st, some en =>
+      out (showR (playbackList pa (re == "1") (auth == "1") (conf == "1") st en (stOk == "1") (enOk == "1")) showPb)
+    | _, _, _ => ((), { model := "bad-op" })
+  | ["ctype", v] =>
+    match Hex.decode v with
+    | some v => out (showR (parseContentType v) hx)
+    | none => ((), { model := "bad-op" })
+  | ["moq", kind, b] =>
+    -- the MoQ decoders that run on the first bytes of every stream, before any authentication:
+    -- controlmessage.Read (SETUP / CLIENT_SETUP / SUBSCRIBE / PUBLISH / …) and SubGroup.Read
+    match Hex.decode b with
+    | some b =>
+      let fmt {α : Type} (o : C32.Out α) : String :=
+        match o.r with
+        | .ok _ rest => s!"ok {b.length - rest.length}"
+        | .err e => s!"err {e.toStr}"
+        | .panic => "panic"
+      if kind == "msg" then out (fmt (C32.readMsg b))
+      else if kind == "sg" then out (fmt (C32.readSubGroup b))
+      else ((), { model := "bad-op" })
+    | none => ((), { model := "bad-op" })
   | ["pname", n] =>
     match Hex.decode n with
     | some n => out (showR (paramName n) fun r => match r with | some v => s!"ok {hx v}" | none => "no")
